@@ -43,7 +43,7 @@ Sure(i) == /\ sends[i].sure
            /\ kind = "p2pke" => \A j \in 1..Len(sends) : sends[j].st = "err" => PairOf(j) # PairOf(i)
 DlOf(i) == {d \in dlv : d.p = i}
 Exp == [i \in 1..Len(sends) |->
-          [p |-> i, from |-> sends[i].from, st |-> sends[i].st, sure |-> Sure(i),
+          [p |-> i, from |-> sends[i].from, st |-> sends[i].st, sure |-> Sure(i), lk |-> sends[i].lk, res |-> sends[i].res,
            dl |-> DlOf(i) # {},
            at |-> IF DlOf(i) # {} THEN (CHOOSE d \in DlOf(i) : TRUE).at ELSE "-",
            src |-> IF DlOf(i) # {} THEN (CHOOSE d \in DlOf(i) : TRUE).src ELSE "-",
@@ -62,6 +62,30 @@ DoReply(n, dl, ask, nph) ==
     /\ Reply(n, dl, ask)
     /\ hist' = Append(hist, [a |-> "reply", n |-> n, re |-> dl.p, ask |-> ask, p |-> Len(sends'),
                              c |-> sends'[Len(sends')].c, newc |-> Len(conns') > Len(conns)])
+    /\ ph' = nph /\ UNCHANGED done
+\* the same calls issued WITHOUT waiting for their result (the script goes on while they block); "join" collects them
+DoTellA(n, x, t, nph) ==
+    /\ Tell(n, x, t, FALSE)
+    /\ hist' = Append(hist, [a |-> "tell", n |-> n, x |-> x, t |-> t, ask |-> FALSE, p |-> Len(sends'), async |-> TRUE,
+                             c |-> sends'[Len(sends')].c, newc |-> Len(conns') > Len(conns)])
+    /\ ph' = nph /\ UNCHANGED done
+DoLookup(n, x, t, async, nph) ==
+    /\ LookupKey(n, x, t)
+    /\ hist' = Append(hist, [a |-> "lookup", n |-> n, x |-> x, t |-> t, p |-> Len(sends'), async |-> async,
+                             c |-> sends'[Len(sends')].c, newc |-> Len(conns') > Len(conns)])
+    /\ ph' = nph /\ UNCHANGED done
+\* wait for the calls issued asynchronously; one that still waits runs into the end of its context
+DoJoin(nph) ==
+    /\ IF \E i \in 1..Len(sends) : Waiting(i) THEN \E i \in 1..Len(sends) : Timeout(i) ELSE UNCHANGED vars
+    /\ hist' = Append(hist, [a |-> "join"])
+    /\ ph' = nph /\ UNCHANGED done
+DoMHello(c, k, proof, nph) ==
+    /\ MHello(c, k, proof)
+    /\ hist' = Append(hist, [a |-> "hello", c |-> c, k |-> k, proof |-> proof])
+    /\ ph' = nph /\ UNCHANGED done
+DoMFinish(c, nph) ==
+    /\ MFinish(c)
+    /\ hist' = Append(hist, [a |-> "finish", c |-> c])
     /\ ph' = nph /\ UNCHANGED done
 DoMListen(k, proof, nph) ==
     /\ MListen(k, proof)
@@ -131,6 +155,26 @@ AnswerNext ==
                  \/ \E dl \in DlAt("A") : DoReply("A", dl, FALSE, 4)
     \/ ph = 4 /\ Finish
 
+(* race: an INBOUND handshake / connection from M's transport address exists at A when A calls Tell or            *)
+(* LookupPublicKey for (any identity, M's address).  P2PKE: M's InitHello (any claim, with or without proof) has  *)
+(* created the channel and M withholds InitDone; the call is issued while the handshake is in flight, and M then  *)
+(* completes it (or never does), or M completes first and the call comes afterwards.  QUIC / SSH: the inbound     *)
+(* session / connection of M is established, then the call.  Finally M writes into whatever it has.              *)
+RaceNext ==
+    \/ ph = 0 /\ DoMDial("A", 1)
+    \/ ph = 1 /\ \E c \in MConn :
+          IF kind = "p2pke" THEN \E k \in Nodes, proof \in {"own", "none"} : DoMHello(c, k, proof, 2)
+          ELSE IF kind = "quic" THEN DoMPresent(c, "M", "own", 10)
+          ELSE DoMSigned(c, "M", 10)
+    \/ ph = 2 /\ \/ \E x \in Nodes : DoTellA("A", x, "M", 3) \/ DoLookup("A", x, "M", TRUE, 3)
+                 \/ \E c \in MConn : DoMFinish(c, 10)
+    \/ ph = 3 /\ \/ \E c \in MConn : DoMFinish(c, 4)
+                 \/ Skip(4)
+    \/ ph = 4 /\ DoJoin(5)
+    \/ ph = 10 /\ \E x \in Nodes : DoTell("A", x, "M", FALSE, 5) \/ DoLookup("A", x, "M", FALSE, 5)
+    \/ ph = 5 /\ \E c \in MConn : DoMSend(c, FALSE, 6)
+    \/ ph = 6 /\ Finish
+
 \* unrestricted random walk (simulation mode)
 MixedNext ==
     IF Len(hist) >= MaxSteps THEN Finish
@@ -143,11 +187,19 @@ MixedNext ==
                 \/ DoMQuery(c, k, 0) \/ DoMSigned(c, k, 0)
                 \/ \E proof \in {RandomElement({"own", "none", "splice"})} : DoMPresent(c, k, proof, 0)
          \/ conns # <<>> /\ \E c \in {RandomElement(CIdx)}, ask \in {RandomElement(Asks)} : DoMSend(c, ask, 0)
+         \/ conns # <<>> /\ \E c \in {RandomElement(CIdx)}, k \in {RandomElement(Nodes)},
+                               proof \in {RandomElement({"own", "none"})} : DoMHello(c, k, proof, 0)
+         \/ conns # <<>> /\ \E c \in {RandomElement(CIdx)} : DoMFinish(c, 0)
+         \/ \E n \in {RandomElement(Honest)}, x \in {RandomElement(Nodes)}, t \in {RandomElement(Nodes)} :
+                IF \E c \in CIdx : conns[c].held THEN DoTellA(n, x, t, 0) \/ DoLookup(n, x, t, TRUE, 0)
+                ELSE DoLookup(n, x, t, FALSE, 0)
+         \/ (\E i \in 1..Len(sends) : Waiting(i)) /\ DoJoin(0)
          \/ Len(hist) >= 3 /\ Finish
 
 FamNext == CASE Fam = "pair"   -> PairNext
              [] Fam = "auth"   -> AuthNext
              [] Fam = "answer" -> AnswerNext
+             [] Fam = "race"   -> RaceNext
              [] OTHER          -> MixedNext
 
 GenNext == \/ ~Quiescent /\ Settle /\ UNCHANGED <<hist, ph, done>>
